@@ -19,6 +19,7 @@ func init() {
 		Rule: "every (n, m) pair of a tier-determined grid plus seeded random pairs plus default-m runs under the child's NumCPU; " +
 			"a class is (relation of n to m, n mod m class, m bucket, delay mode, explicit/default m); non-trivial = at least 2 iterations and 2 workers allowed",
 		HangIsViolation:  true,
+		Exhaustive:       map[string]string{"quick": "all (n, m) with n in 0..300 and m in 1..64 (plus sampled pairs beyond)", "thorough": "all (n, m) with n in 0..2048 and m in 1..300, and default m for every n in 0..2048 under NumCPU 1..16"},
 		Technique:        "external trace monitor over the work function's (start,end) events + Go race detector + runtime deadlock detector",
 		MinEvals:         map[string]int64{"quick": 15000, "thorough": 500000},
 		MinClasses:       map[string]int64{"quick": 40, "thorough": 60},
